@@ -152,3 +152,140 @@ func GenWorkload(r *Rand, corpus []CorpusInput, maxLangs int, opts GenOpts) *Wor
 	w.Name = strings.Join(names, "+") + " -> " + strings.Join(w.LangNames(), ",") + fmt.Sprintf(" t=%v b=%v c=%v a=%v", w.Types, w.Builders, w.Converters, w.APIRef)
 	return w
 }
+
+// GenComposeWorkload draws the scenario builder composition exists for: a core
+// package with a Panel whose `options` and `fieldConfig.defaults.custom` slots
+// are `any`, 2-3 composable panelcfg packages providing Options/FieldConfig, and
+// a compose veneer. It is what puts >= 2 entries into ComposeBuilders' map.
+func GenComposeWorkload(r *Rand) *Workload {
+	w := &Workload{Files: map[string]string{}, Types: true, Builders: true}
+	str := func() *WType { return &WType{K: "string"} }
+	core := &WPackage{Name: "dashboard", Objects: []WObject{
+		{Name: "Panel", T: &WType{K: "struct", Fields: []WField{
+			{Name: "type", T: str(), Required: true},
+			{Name: "title", T: str()},
+			{Name: "options", T: &WType{K: "any"}},
+			{Name: "fieldConfig", T: &WType{K: "ref", Ref: "FieldConfigSource"}},
+		}}},
+		{Name: "FieldConfigSource", T: &WType{K: "struct", Fields: []WField{{Name: "defaults", T: &WType{K: "ref", Ref: "FieldConfig"}}}}},
+		{Name: "FieldConfig", T: &WType{K: "struct", Fields: []WField{{Name: "unit", T: str()}, {Name: "custom", T: &WType{K: "any"}}}}},
+	}}
+	path := "in/gen_dashboard/schema.json"
+	w.Files[path] = core.RenderJSONSchema()
+	w.Inputs = append(w.Inputs, InputSpec{Kind: "jsonschema", Path: path, Package: "dashboard"})
+	panels := Shuffled(r, []string{"timeseries", "barchart", "table", "stat"})[:2+r.Intn(2)]
+	scalarField := func(n string) WField {
+		g := &worldGen{r: r, opts: GenOpts{Plain: true}}
+		return WField{Name: n, T: g.scalar(), Required: r.Bool()}
+	}
+	for _, p := range panels {
+		pk := &WPackage{Name: p, Objects: []WObject{
+			{Name: "Options", T: &WType{K: "struct", Fields: []WField{scalarField("legend"), scalarField("tooltip"), scalarField(p + "Mode")}}},
+			{Name: "FieldConfig", T: &WType{K: "struct", Fields: []WField{scalarField("lineWidth"), scalarField("fillOpacity")}}},
+		}}
+		path := "in/gen_" + p + "/schema.json"
+		w.Files[path] = pk.RenderJSONSchema()
+		w.Inputs = append(w.Inputs, InputSpec{Kind: "jsonschema", Path: path, Package: p,
+			Metadata: map[string]string{"kind": "composable", "variant": "panelcfg", "identifier": p}})
+	}
+	w.Inputs = Shuffled(r, w.Inputs)
+	var b strings.Builder
+	b.WriteString("language: all\npackage: dashboard\nbuilders:\n  - compose:\n      by_variant: panelcfg\n      source_builder_name: dashboard.Panel\n      plugin_discriminator_field: type\n")
+	b.WriteString("      composition_map:\n        Options: options\n        FieldConfig: fieldConfig.defaults.custom\n")
+	if r.Bool() {
+		b.WriteString("      exclude_options: [title]\n")
+	}
+	if r.Bool() {
+		b.WriteString("      composed_builder_name: Panel\n")
+	}
+	if r.Bool() {
+		b.WriteString("      preserve_original_builders: true\n")
+	}
+	w.Files["cfg/veneers/compose.yaml"] = b.String()
+	w.VeneerDirs = []string{"cfg/veneers"}
+	w.Languages = GenLanguages(r, 1, 3)
+	w.Converters = r.Bool()
+	w.APIRef = r.Chance(1, 3)
+	w.Name = "compose:" + strings.Join(panels, "+") + " -> " + strings.Join(w.LangNames(), ",")
+	return w
+}
+
+// GenListOfUnionsWorkload: a struct with two lists of discriminated unions whose
+// options are turned into append-one-branch options (array_to_append +
+// disjunction_as_options), with converters: the shape that puts two entries
+// into the converter generator's map of list-of-disjunction options.
+func GenListOfUnionsWorkload(r *Rand) *Workload {
+	w := &Workload{Files: map[string]string{}, Types: true, Builders: true, Converters: true}
+	variant := func(name, tag string) WObject {
+		return WObject{Name: name, T: &WType{K: "struct", Fields: []WField{
+			{Name: "type", T: &WType{K: "const", Const: tag}, Required: true},
+			{Name: "payload", T: &WType{K: "string"}},
+		}}}
+	}
+	union := func() *WType {
+		return &WType{K: "union", Branches: []*WType{{K: "ref", Ref: "VariantA"}, {K: "ref", Ref: "VariantB"}}}
+	}
+	pkg := &WPackage{Name: "lists", Objects: []WObject{
+		variant("VariantA", "va"), variant("VariantB", "vb"),
+		{Name: "Holder", T: &WType{K: "struct", Fields: []WField{
+			{Name: "many", T: &WType{K: "array", Elem: union()}},
+			{Name: "others", T: &WType{K: "array", Elem: union()}},
+			{Name: "zeds", T: &WType{K: "array", Elem: union()}},
+		}}},
+	}}
+	format := Pick(r, []string{"jsonschema", "openapi"})
+	if format == "openapi" {
+		w.Files["in/lists/openapi.json"] = pkg.RenderOpenAPI()
+		w.Inputs = []InputSpec{{Kind: "openapi", Path: "in/lists/openapi.json", Package: "lists"}}
+	} else {
+		w.Files["in/lists/schema.json"] = pkg.RenderJSONSchema()
+		w.Inputs = []InputSpec{{Kind: "jsonschema", Path: "in/lists/schema.json", Package: "lists"}}
+	}
+	var b strings.Builder
+	b.WriteString("language: all\npackage: lists\noptions:\n")
+	for _, f := range Shuffled(r, []string{"many", "others", "zeds"}) {
+		fmt.Fprintf(&b, "  - array_to_append:\n      by_name: Holder.%s\n", f)
+	}
+	for _, f := range Shuffled(r, []string{"many", "others", "zeds"}) {
+		fmt.Fprintf(&b, "  - disjunction_as_options:\n      by_name: Holder.%s\n      argument_index: 0\n", tools_singular(f))
+	}
+	w.Files["cfg/veneers/lists.yaml"] = b.String()
+	w.VeneerDirs = []string{"cfg/veneers"}
+	w.Languages = GenLanguages(r, 1, 3)
+	w.Name = "list-of-unions:" + format + " -> " + strings.Join(w.LangNames(), ",")
+	return w
+}
+
+// array_to_append keeps the option's name; only its argument is singularised.
+func tools_singular(s string) string { return s }
+
+// GenMergeWorkload: a struct whose field refers to another struct, and a
+// merge_into veneer whose rename_options interact (a chain, and keys differing
+// by case): the shape that puts >= 2 entries in the rename map.
+func GenMergeWorkload(r *Rand) *Workload {
+	w := &Workload{Files: map[string]string{}, Types: true, Builders: true}
+	str := func() *WType { return &WType{K: "string"} }
+	pkg := &WPackage{Name: "merging", Objects: []WObject{
+		{Name: "Inner", T: &WType{K: "struct", Fields: []WField{{Name: "title", T: str()}, {Name: "name", T: str()}, {Name: "unit", T: &WType{K: "int"}}, {Name: "Title", T: &WType{K: "bool"}}}}},
+		{Name: "Outer", T: &WType{K: "struct", Fields: []WField{{Name: "inner", T: &WType{K: "ref", Ref: "Inner"}}, {Name: "id", T: str(), Required: true}}}},
+	}}
+	w.Files["in/merging/schema.json"] = pkg.RenderJSONSchema()
+	w.Inputs = []InputSpec{{Kind: "jsonschema", Path: "in/merging/schema.json", Package: "merging"}}
+	renames := Pick(r, [][][2]string{
+		{{"title", "name"}, {"name", "legacyName"}},
+		{{"title", "unit"}, {"unit", "title"}},
+		{{"title", "lower"}, {"TITLE", "upper"}, {"Title", "mixed"}},
+		{{"name", "unit"}, {"unit", "third"}, {"third", "fourth"}},
+	})
+	var b strings.Builder
+	b.WriteString("language: all\npackage: merging\nbuilders:\n  - merge_into:\n      destination: Outer\n      source: Inner\n      under_path: inner\n      rename_options:\n")
+	for _, kv := range renames {
+		fmt.Fprintf(&b, "        %s: %s\n", kv[0], kv[1])
+	}
+	w.Files["cfg/veneers/merge.yaml"] = b.String()
+	w.VeneerDirs = []string{"cfg/veneers"}
+	w.Languages = GenLanguages(r, 1, 3)
+	w.Converters = r.Bool()
+	w.Name = "merge-into-renames -> " + strings.Join(w.LangNames(), ",")
+	return w
+}
